@@ -325,6 +325,11 @@ func (cl *cluster) apply(ev string) {
 		cl.observe("%s -> done=%v err=%v", ev, t.done, t.err != nil)
 		cl.terr(ev, t.err)
 		delete(cl.adds, i)
+	case "Reb":
+		// the joining replica marks itself rebuilding (first step of its rebuild); nothing has been copied yet
+		i := atoi(f[1])
+		cl.terr(ev, cl.rest(i, "setrebuilding", `{"rebuilding":true}`))
+		cl.observe("%s", ev)
 	case "Sync":
 		i := atoi(f[1])
 		b := cl.attachedBE(i)
